@@ -429,6 +429,33 @@ func L2_private_contexts() {
 			vnd.Assert(gp.rbSlice[i].Dc != gp.ruleBuilder.Dc, "instances do not share the master's context")
 		}
 	}
+	// as many requests in flight as the pool has instances: each one finds its own data, on a context of its own
+	for _, sz := range [][2]int64{{1, 2}, {2, 3}, {2, 4}, {3, 5}} {
+		gp := zzReqPool(sz[0], sz[1])
+		n := int(sz[1])
+		var held []*gengineWrapper
+		for i := 0; i < n; i++ {
+			w, e := gp.prepareWithMultiInput(map[string]interface{}{"req": int64(1000 + i), "resp": int64(i), "fail": false, "quiet": false})
+			zzMust(e, "request")
+			held = append(held, w)
+		}
+		for i := 0; i < n; i++ {
+			for j := i + 1; j < n; j++ {
+				vnd.Assert(held[i].rulebuilder.Dc != held[j].rulebuilder.Dc, "requests in flight at the same time work on distinct data contexts")
+				vnd.Assert(held[i].gengine != held[j].gengine, "requests in flight at the same time work on distinct engines")
+			}
+			v, e := held[i].rulebuilder.Dc.Get("req")
+			vnd.Assert(e == nil, "a request in flight finds its own data")
+			if e == nil {
+				x, ok := v.Interface().(int64)
+				vnd.Assert(ok && x == int64(1000+i), "a request in flight reads only its own data")
+			}
+		}
+		for _, w := range held {
+			w.clearInjected("req", "resp", "fail", "quiet")
+			gp.putGengineLocked(w)
+		}
+	}
 	vnd.Reach("executed")
 }
 `)
@@ -580,6 +607,35 @@ func %s() {
 		fam.Instances = append(fam.Instances, Instance{Func: name, Stratum: "L3", Desc: "clean-up after ExecuteRulesWithSpecifiedEM(" + args + ")", Expect: []string{"executed"}})
 	}
 	b.WriteString(`
+// a request whose data holds, besides real entries, entries the pool tolerates but does not inject (nil value, empty
+// key): every real entry is gone afterwards (the tolerated
+// entries come first in the interpreter's iteration order; natively the order is random)
+func L3_tolerated_entries() {
+	for _, call := range []string{"Execute", "ExecuteSelectedRules", "ExecuteConcurrent"} {
+		gp := zzReqPool(1, 2)
+		req := vnd.Int64("req")
+		data := map[string]interface{}{"nothing": nil, "req": req, "": int64(5), "resp": int64(7)}
+		switch call {
+		case "Execute":
+			_, _ = gp.Execute(data, true)
+		case "ExecuteConcurrent":
+			_, _ = gp.ExecuteConcurrent(data)
+		default:
+			_, _ = gp.ExecuteSelectedRules(data, []string{"a"})
+		}
+		vnd.Quiesce()
+		for i := range gp.rbSlice {
+			for _, k := range []string{"req", "resp", "nothing"} {
+				_, e := gp.rbSlice[i].Dc.Get(k)
+				vnd.Assert(e != nil, "once the call has returned its data is no longer visible on any instance")
+			}
+			_, e := gp.rbSlice[i].Dc.Get("ev")
+			vnd.Assert(e == nil, "the pool's apis stay injected")
+		}
+	}
+	vnd.Reach("executed")
+}
+
 // a local assigned on one path of an earlier request is not there for a later request on the other path
 func L5_local_does_not_leak() {
 	apis := zzApis()
@@ -861,6 +917,7 @@ func %s() {
 	fam.Instances = append(fam.Instances, Instance{Func: "O_overlap3", Stratum: "overlap", Desc: "three overlapping requests on a (1,3) pool", Expect: []string{"executed"}},
 		Instance{Func: "L4_conc_members", Stratum: "L4", Desc: "members of a conc block (three-level, assignment, method) are finished when the pool call returns", Expect: []string{"executed"}})
 	fam.Instances = append(fam.Instances, Instance{Func: "O_overlap", Stratum: "overlap", Desc: "two overlapping requests", Expect: []string{"executed"}},
+		Instance{Func: "L3_tolerated_entries", Stratum: "L3", Desc: "clean-up of a request holding nil-valued and empty-key entries", Expect: []string{"executed"}},
 		Instance{Func: "L5_local_does_not_leak", Stratum: "L5", Desc: "rule locals of an earlier request are invisible to later requests", Expect: []string{"executed"}})
 	finishPoolFamily(fam, "C06", b.String())
 	// O_overlap needs sync
